@@ -387,3 +387,56 @@ package cluster_info
 //@   ensures [bindingPodsOnSelectedNode] listBuilt(result0, bindRequests) && listBuilt(result1, bindRequests)
 //@   ensures [layout] resource_info.vmWF(vectorMap)
 //@ end
+
+// ---- C14 / C01 / C10: the nodes of the snapshot ---------------------------------------------------------------------
+//@ func NewK8sNodePodAffinityInfo
+//@   props C10 C14
+//@   trusted
+//@   note builds a k8s scheduler-framework NodeInfo (k8s.io/kubernetes/pkg/scheduler/framework: external) and registers it in the cluster pod-affinity index (interface pod_affinity.ClusterPodAffinityInfo, implemented in package cache); this bookkeeping is outside the scheduler's resource model (see pod_affinity.NodePodAffinityInfo.AddPod): assumed to touch no object the contracts mention and to return a non-nil value
+//@   requires node != nil && clusterPodAffinityInfo != nil
+//@   ensures result != nil
+//@ end
+
+// what every node of the snapshot map satisfies (pointer level: survives every later step that only moves amounts)
+//@ define snapNodeOK(nodes map[string]*node_info.NodeInfo) bool = forall n in nodes :: nodes[n] != nil && nodes[n].Name == n && node_info.nodeShape(nodes[n]) && node_info.podsWF(nodes[n]) && nodes[n].Allocatable != nodes[n].Idle && nodes[n].MemoryOfEveryGpuOnNode == node_info.nodeGpuMemory(nodes[n].Node)
+// C14 "pods present": no pod has been put on any node yet, and no amount that only pods move has moved: Used and
+// Releasing are zero in cpu, memory and every scalar resource, Idle equals Allocatable in them, no shared-GPU entry
+// exists.  (The whole-GPU component is stated per node by NewNodeInfo / AddDRAGPUs; at map level it would need
+// pairwise separation of the nodes' Resource objects.)
+//@ define snapNodeEmpty(nodes map[string]*node_info.NodeInfo) bool = forall n in nodes :: (forall k common_info.PodID :: !(k in nodes[n].PodInfos)) && node_info.noSharedGpus(nodes[n]) && nodes[n].Used.milliCpu == 0.0 && nodes[n].Used.memory == 0.0 && nodes[n].Releasing.milliCpu == 0.0 && nodes[n].Releasing.memory == 0.0 && nodes[n].Idle.milliCpu == nodes[n].Allocatable.milliCpu && nodes[n].Idle.memory == nodes[n].Allocatable.memory && (forall k v1.ResourceName :: !(k in nodes[n].Used.scalarResources) && !(k in nodes[n].Releasing.scalarResources) && nodes[n].Idle.scalarResources[k] == nodes[n].Allocatable.scalarResources[k] && (k in nodes[n].Idle.scalarResources <==> k in nodes[n].Allocatable.scalarResources))
+
+// GPUs offered through DRA ResourceSlices are added to Allocatable and Idle of the node (AddDRAGPUs); only amounts move.
+//@ func (*ClusterInfo).populateDRAGPUs
+//@   props C14 C10
+//@   requires ciWF(c) && snapNodeOK(nodes)
+//@   modifies family(nodes[""].Allocatable.gpus), family(nodes[""].AllocatableVector[*]), family(nodes[""].HasDRAGPUs)
+//@   loop 1
+//@     invariant snapNodeOK(nodes)
+//@     invariant forall s in slicesByNode :: forall i int :: 0 <= i && i < len(slicesByNode[s]) ==> slicesByNode[s][i] != nil
+//@   loop 2
+//@     invariant 0 - 1 <= rangeindex
+//@     invariant snapNodeOK(nodes)
+//@     invariant forall s in slicesByNode :: forall i int :: 0 <= i && i < len(slicesByNode[s]) ==> slicesByNode[s][i] != nil
+//@   ensures [shapeKept] snapNodeOK(nodes)
+//@ end
+
+// C14 / C01 (establish) + C10 "nodes without labels or with zero capacity": one NodeInfo per listed node, stored under
+// the node's name, built by NewNodeInfo (Idle = Allocatable = node.status.allocatable, nothing used, no pods), then
+// populateDRAGPUs.  The per-GPU memory is whatever the label says (nodeGpuMemory): NOT necessarily positive (F1).
+//@ func (*ClusterInfo).snapshotNodes
+//@   props C14 C01 C10
+//@   requires ciWF(c) && clusterPodAffinityInfo != nil && resource_info.vmWF(vectorMap)
+//@   modifies vectorMap.namesToIndex[*], vectorMap.resourceNames
+//@   loop 1
+//@     invariant 0 - 1 <= rangeindex && rangeindex < len(nodes)
+//@     invariant forall i int :: 0 <= i && i < len(nodes) ==> nodes[i] != nil
+//@     invariant resource_info.vmWF(vectorMap)
+//@     invariant resultNodes != nil && fresh(resultNodes)
+//@     invariant forall n in resultNodes :: fresh(resultNodes[n]) && fresh(resultNodes[n].PodInfos) && fresh(resultNodes[n].Used) && fresh(resultNodes[n].Releasing) && fresh(resultNodes[n].Idle) && fresh(resultNodes[n].Allocatable)
+//@     invariant snapNodeOK(resultNodes)
+//@     invariant snapNodeEmpty(resultNodes)
+//@   ensures [listError] err != nil ==> nodesMap == nil
+//@   ensures [nodesKeyedAndShaped] err == nil ==> nodesMap != nil && snapNodeOK(nodesMap)
+//@   ensures [noPodsNothingUsed] err == nil ==> snapNodeEmpty(nodesMap)
+//@   ensures [layout] resource_info.vmWF(vectorMap)
+//@ end
